@@ -87,11 +87,14 @@ CHECKS = {
           "closed forms (chord start = sum of earlier chord durations, note start = sum of earlier notes); merging the rendered rows of a part "
           "(continuations lengthen the previous event, silent events dropped) yields exactly the Spec's sounding notes - pitch from C01/C09's "
           "functions with the reference reset by an absent part and defaulting to 0, duration extended by directly following continuations also "
-          "across chord boundaries, velocity = amplitude; rests, orphan continuations and absent parts are silent. to_events (seconds, global "
-          "stable sort, per-track dictionaries) is modelled exactly and tied by correspondence; its defect (continuation added in quarters) was fixed.",
+          "across chord boundaries, velocity = amplitude; rests, orphan continuations and absent parts are silent. to_events: for the rows of "
+          "one part, any tempo and tick resolution, the audible events accumulated for its track are exactly those sounding notes with every "
+          "onset and duration (continuations included) multiplied by 60 / (tempo x ticks per quarter); the pre-repair code (continuation added "
+          "in quarters) is refuted at tempo 120 by a witness. The whole matrix_to_events (global stable sorts, per-track dictionaries) is "
+          "modelled exactly and tied by correspondence.",
   "note": "Trusted: Coq kernel; adapters (tick scaling by the LCM of denominators, float seconds recovered as exact rationals); Python's stable "
-          "sort. The seconds-level statement about matrix_to_events (per-track dictionaries + global sort) is NOT yet a theorem: it is tied by "
-          "model correspondence (2700 cases/run) and by the oracle. Tag-free notes, integer amplitudes, no 'x' placeholders.",
+          "sort. The seconds theorem is per track (Qeq on times); that the two global sorts of matrix_to_events keep each track's rows in order is "
+          "tied by model correspondence (2700 cases/run) and by the oracle, not proved. Tag-free notes, integer amplitudes, no 'x' placeholders.",
  },
  "C12": {
   "text": "Theorems in integer ticks for every score whose parts last their chord: get_melody_between never fails and lasts exactly the "
